@@ -122,6 +122,12 @@ def source_for(kind: str, name: str, route: str) -> Path:
         comp = gzip.compress if route == 'gz2' else lzma.compress
         p = src.with_suffix(src.suffix + ('.m.gz' if route == 'gz2' else '.m.xz'))
         p.write_bytes(b''.join(comp(data[a:b]) for a, b in zip(cuts, cuts[1:])))
+    elif route == 'sq':
+        # the same document with single quotes in the XML declaration and the DOCTYPE
+        lines = src.read_text(encoding='utf-8').split('\n')
+        lines[0], lines[1] = lines[0].replace('"', "'"), lines[1].replace('"', "'")
+        p = src.with_suffix('.sq.xml')
+        p.write_text('\n'.join(lines), encoding='utf-8')
     elif route == 'pkg':
         p = _package(src, name)
     elif route == 'coll':
